@@ -444,7 +444,12 @@ func (tr *verifTracker) ServeHTTP(rw http.ResponseWriter, req *http.Request) {
 		ih = "bad"
 	}
 	tr.mu.Lock()
-	tr.log = append(tr.log, fmt.Sprintf("%d:%s:%s:%s:%s", tr.idx, ev, pid, ua, ih))
+	// counters and port as the tracker sees them: L<left> (judged by the model) and P<ok|bad> (against Torrent.Port)
+	pv := "ok"
+	if q.Get("port") != fmt.Sprint(tr.w.sess.config.PortBegin) {
+		pv = "bad"
+	}
+	tr.log = append(tr.log, fmt.Sprintf("%d:%s:%s:%s:%s:L%s:P%s", tr.idx, ev, pid, ua, ih, q.Get("left"), pv))
 	hang := tr.mode == "hang" || (tr.mode == "hang-stopped" && ev == "stopped")
 	rel := tr.release
 	tr.inflight++
